@@ -69,4 +69,31 @@ def construct (h : Head) : GoM Built :=
         if !nodupB (h.orchKeys ++ h.metricKeys) then .error .explicit   -- duplicate label names: the Prometheus client panics
         else .ok { keyLocators := kl, metricLocators := ml, labels := h.orchKeys ++ h.metricKeys }
 
+
+/-! ### a syslog input (`input/sysloginput/sysloginput.go` `VerifyConfig`, `syslogparser.NewParser` / `MustNewParser`) -/
+
+structure Input where
+  addrSplits : Bool            -- net.SplitHostPort accepts `.address`
+  levels : Nat                 -- number of entries of `.levelMapping`
+  extractions : List TC
+
+/-- the fields `syslogparser.NewParser` locates in the schema -/
+def parserFields : List Bytes :=
+  [b!"facility", b!"level", b!"time", b!"host", b!"app", b!"pid", b!"source", b!"extradata", b!"log"]
+
+/-- `syslogparser.NewParser` returns no error -/
+def parserOK (sch : Schema) (levels : Nat) : Bool :=
+  (levels == 0 || levels == 8) && parserFields.all (fun f => (locate sch f).isSome)
+
+/-- `sysloginput.Config.VerifyConfig` -/
+def inputOK (sch : Schema) (i : Input) : Bool :=
+  i.addrSplits && i.levels != 0 && !i.extractions.isEmpty && parserOK sch i.levels && verifySteps sch i.extractions
+
+/-- what every new connection does: `MustNewParser` and `NewTransformsFromConfig` for the extraction steps -/
+def constructInput (sch : Schema) (i : Input) : GoM (List Xform.Step) :=
+  if !parserOK sch i.levels then .error .explicit       -- MustNewParser
+  else match constructSteps sch 0 i.extractions with
+    | .ok (p, _) => .ok p
+    | .error e => .error e
+
 end CfgFile
